@@ -22,10 +22,11 @@
 (* observation records; MCClientAuth evaluates them on the model, and      *)
 (* ClientTrace on the calls recorded from the real client.                 *)
 (***************************************************************************)
-EXTENDS Naturals, Sequences, FiniteSets
+EXTENDS Naturals, Sequences, FiniteSets, SequencesExt
 
 CONSTANTS ChecksAddr,   \* chunk_get compares the address of the chunk it received with the requested one
-          ChecksPad     \* the vault read keeps only pads owned by the requested key and validly signed
+          ChecksPad,    \* the vault read keeps only pads owned by the requested key and validly signed
+          WithEncoding  \* the reply kind "encoding" (holder-changed content type) takes part (VERIF_ENABLE_ENCODING)
 
 \* ----------------------------------------------------------------- reply kinds
 \* replies to a chunk read of address A (content X):
@@ -49,14 +50,35 @@ CarriesRequested(k) == k \in {"authentic", "wrongkind", "paidkind"}
 \*   foreign                owner Q, validly signed by Q, counter 7, returned under P's record key
 \*   wrongkey               owner Q, validly signed by Q, counter 8, under Q's own record key
 \*   wrongkind              a chunk record under P's record key
-PadKinds == {"valid1", "valid2", "valid3", "unsigned", "badsig", "inflated", "foreign", "wrongkey", "wrongkind"}
-IsPad(k) == k \in PadKinds \ {"wrongkind"}
-SigValid(k) == k \in {"valid1", "valid2", "valid3", "foreign", "wrongkey"}     \* Scratchpad::is_valid()
-OwnerOk(k) == k \in {"valid1", "valid2", "valid3", "unsigned", "badsig", "inflated"}
+\*   -- records that do not carry a bare pad under a Scratchpad header:
+\*   paidforeign paidunsigned paidinflated
+\*                          a well-formed (proof of payment, pad) pair under the ScratchpadWithPayment header (what a
+\*                          holder keeps from the first, paid upload); the pad inside is a foreign / unsigned /
+\*                          inflated one.  The pair does not parse as a bare pad.
+\*   padbody-chunkhdr       owner P, no signature, counter 4: the body of a pad behind a Chunk-kind header
+\*   -- tampered versions of a pad the owner did write:
+\*   swapdata               owner P, counter and signature of valid3 over OTHER encrypted data (signature does not verify)
+\*   encoding               valid3 with the content type (data_encoding) changed by the holder; counter, encrypted data
+\*                          and signature are those of valid3 (the signature covers counter and data only)
+\*   valid3b                owner P, signed by P, counter 3, OTHER data: a second authentic version with the highest counter
+PadKinds == {"valid1", "valid2", "valid3", "unsigned", "badsig", "inflated", "foreign", "wrongkey", "wrongkind",
+             "paidforeign", "paidunsigned", "paidinflated", "padbody-chunkhdr", "swapdata", "valid3b"}
+            \cup (IF WithEncoding THEN {"encoding"} ELSE {})
+\* kind announced by the record header
+Header(k) == CASE k \in {"wrongkind", "padbody-chunkhdr"} -> "Chunk"
+               [] k \in {"paidforeign", "paidunsigned", "paidinflated"} -> "PadPaid"
+               [] OTHER -> "Pad"
+\* the record body parses as a bare pad (try_deserialize_record::<Scratchpad> does not look at the header)
+IsPad(k) == k \in PadKinds \ {"wrongkind", "paidforeign", "paidunsigned", "paidinflated"}
+SigValid(k) == k \in {"valid1", "valid2", "valid3", "foreign", "wrongkey", "valid3b", "encoding"}     \* Scratchpad::is_valid()
+OwnerOk(k) == k \in {"valid1", "valid2", "valid3", "unsigned", "badsig", "inflated", "padbody-chunkhdr", "swapdata", "valid3b", "encoding"}
 Counter(k) == CASE k = "valid1" -> 1 [] k = "valid2" -> 2 [] k = "valid3" -> 3 [] k = "unsigned" -> 5
-                [] k = "badsig" -> 6 [] k = "inflated" -> 9 [] k = "foreign" -> 7 [] k = "wrongkey" -> 8 [] OTHER -> 0
+                [] k = "badsig" -> 6 [] k = "inflated" -> 9 [] k = "foreign" -> 7 [] k = "wrongkey" -> 8
+                [] k \in {"swapdata", "valid3b", "encoding"} -> 3 [] k = "padbody-chunkhdr" -> 4 [] OTHER -> 0
 \* a version the statement accepts: owned by the requested key and validly signed by it
 AuthenticPad(k) == IsPad(k) /\ SigValid(k) /\ OwnerOk(k)
+\* every field of the version is as its owner wrote it (no holder touched counter, data or content type)
+OwnerWrote(k) == k \in {"valid1", "valid2", "valid3", "valid3b"}
 
 MaxCounter(S) == CHOOSE c \in {Counter(k) : k \in S} : \A k \in S : Counter(k) <= c
 Highest(S) == {k \in S : Counter(k) = MaxCounter(S)}
@@ -83,14 +105,19 @@ Accumulate(replies, q) ==
 \* versions the client has received with an outcome
 Delivered(o) == IF o.k \in {"Ok", "NotEnough"} THEN {o.v} ELSE o.vs
 
-\* Network::get_record_from_network: a split of scratchpads is resolved to the highest-counter pad whose
-\* signature verifies (the first record in map order dictates the kind; others are skipped)
+\* Network::get_record_from_network / handle_split_record_error over the versions in the iteration order `ord`
+\* of the result map: the header of the first record dictates the kind; records with another header are skipped;
+\* for the Scratchpad kind the first pad with the highest counter among those whose signature verifies is
+\* returned (the owner is NOT looked at here); any other kind resolves nothing.  "none" = the split stays.
+SplitResolve(ord) ==
+    IF Header(ord[1]) # "Pad" THEN "none"
+    ELSE LET Step(acc, k) == IF Header(k) = "Pad" /\ IsPad(k) /\ SigValid(k) /\ (acc = "none" \/ Counter(k) > Counter(acc))
+                             THEN k ELSE acc
+         IN FoldLeft(Step, "none", ord)
+\* order-free: what any iteration order may deliver to the client
 NetLayer(o) ==
     IF o.k # "Split" \/ Cardinality(o.vs) < 2 THEN {o}
-    ELSE LET cands == {k \in o.vs : IsPad(k) /\ SigValid(k)}
-         IN (IF \E k \in o.vs : IsPad(k)
-             THEN (IF cands # {} THEN {OkOut(k) : k \in Highest(cands)} ELSE {o}) ELSE {})
-            \cup (IF \E k \in o.vs : ~IsPad(k) THEN {o} ELSE {})
+    ELSE {IF SplitResolve(p) = "none" THEN o ELSE OkOut(SplitResolve(p)) : p \in SetToSeqs(o.vs)}
 
 \* ----------------------------------------------------------------- client
 ResOk(x) == [k |-> "ok", x |-> x]
@@ -113,14 +140,28 @@ VaultClient(o) ==
                IF pool = {} THEN {ResErr} ELSE {ResOk(k) : k \in Highest(pool)})
     ELSE {ResErr}
 VaultGet(o) == UNION {VaultClient(d) : d \in NetLayer(o)}
+\* the same with the iteration order of the split known (ord = the versions in map order; the same map instance is
+\* walked by the network layer and then by the client): the split branch sorts by counter (stable) and takes the
+\* first of the highest ones
+VaultClientOrd(ord) ==
+    IF \E i \in 1..Len(ord) : ~IsPad(ord[i]) THEN ResErr
+    ELSE LET pool == IF ChecksPad THEN SelectSeq(ord, AuthenticPad) ELSE ord IN
+         IF pool = <<>> THEN ResErr
+         ELSE LET m == MaxCounter(ToSet(pool)) IN ResOk(SelectSeq(pool, LAMBDA k : Counter(k) = m)[1])
+VaultGetOrd(o, ord) ==
+    IF o.k # "Split" \/ Len(ord) < 2 \/ ToSet(ord) # o.vs THEN VaultGet(o)
+    ELSE IF SplitResolve(ord) # "none" THEN VaultClient(OkOut(SplitResolve(ord)))
+    ELSE {VaultClientOrd(ord)}
 
 \* data_get_public(A) with ONE fetch of the tree (position pos) answered by a reply of `kind`, all others
 \* authentic; result x = 1 the data committed to by A, 2 the other data, 0 anything else
+\*   sibling / siblingkey: the content of ANOTHER chunk of the same tree (a genuine member of the data map, of the
+\*   wrong position), under the requested key / under its own key
 DataGet(pos, kind) ==
     IF kind = "authentic" THEN {ResOk(1)}
     ELSE IF kind \in {"wrongkind", "missing", "paidsubst"} THEN {ResErr}
     ELSE IF ChecksAddr THEN {ResErr}
-    ELSE IF pos = "root" THEN {ResOk(2)}            \* the other data map is followed to the end
+    ELSE IF pos = "root" /\ kind \in {"wrongcontent", "wrongkey"} THEN {ResOk(2)}   \* the other data map is followed to the end
     ELSE {ResErr, ResOk(0)}                          \* a foreign chunk among the others: decryption fails or garbles
 
 \* ----------------------------------------------------------------- clauses of C15 (from the statement)
@@ -135,6 +176,11 @@ C15_VaultAuthentic(c) ==
     c.res.k = "ok" => /\ c.res.x \in c.delivered
                       /\ AuthenticPad(c.res.x)
                       /\ Counter(c.res.x) = MaxCounter({k \in c.delivered : AuthenticPad(k)})
+\* "... validly signed by it ... instead of returning unauthenticated data": everything the read hands to the owner
+\*  (data, counter, content type) is what the owner wrote; a field a holder can change without invalidating the
+\*  signature is unauthenticated data
+\*   c = [res] ; res.x = kind of the returned pad, identified by decrypted data, counter AND content type
+C15_VaultFieldsAuthentic(c) == c.res.k = "ok" => OwnerWrote(c.res.x)
 \* "When no authentic version is available the read fails with an error instead of returning unauthenticated data"
 C15_FailClosed(authenticAvailable, res) == ~authenticAvailable => res.k = "err"
 =============================================================================
